@@ -188,6 +188,104 @@ func ruleQ(c *Ctx) {
 	if n == 0 {
 		c.und(R, "LString.Format:calls", p.pos(fn.Pos()), "no defaultFormat call found")
 	}
+	ruleQuoteWidth(c)
+}
+
+// constAppendSeqs: for every append(x, c0, c1, …) with constant variadic bytes in fn, the byte sequence.
+func constAppendSeqs(fn *ssa.Function) map[ssa.Instruction][]int64 {
+	out := map[ssa.Instruction][]int64{}
+	allInstrs(fn, func(in ssa.Instruction) {
+		call, ok := in.(*ssa.Call)
+		if !ok {
+			return
+		}
+		bi, ok := call.Call.Value.(*ssa.Builtin)
+		if !ok || bi.Name() != "append" || len(call.Call.Args) != 2 {
+			return
+		}
+		sl, ok := call.Call.Args[1].(*ssa.Slice)
+		if !ok {
+			return
+		}
+		al, ok := sl.X.(*ssa.Alloc)
+		if !ok {
+			return
+		}
+		vals := map[int64]int64{}
+		complete := true
+		for _, r := range *al.Referrers() {
+			ia, ok := r.(*ssa.IndexAddr)
+			if !ok {
+				continue
+			}
+			idx, ok := constInt(ia.Index)
+			if !ok {
+				complete = false
+				continue
+			}
+			for _, r2 := range *ia.Referrers() {
+				if st, ok := r2.(*ssa.Store); ok {
+					if k, ok := constInt(st.Val); ok {
+						vals[idx] = k
+					} else {
+						vals[idx] = -1
+					}
+				}
+			}
+		}
+		if !complete {
+			return
+		}
+		seq := make([]int64, len(vals))
+		for i := range seq {
+			seq[i] = vals[int64(i)]
+		}
+		out[in] = seq
+	})
+	return out
+}
+
+// ruleQuoteWidth: writer/reader agreement on decimal escapes — the reader (scanEscape) consumes up to
+// 1+K digits after a backslash, so the quoter must always emit exactly that many.
+func ruleQuoteWidth(c *Ctx) {
+	const R = "R16-q"
+	p := c.P
+	q := p.Fn("lua", "quoteLuaString")
+	se := p.Fn("parse", "(*Scanner).scanEscape")
+	if q == nil || se == nil {
+		return // the quoter only exists once %q no longer goes through fmt
+	}
+	// reader: loop `for i := 0; i < K && isDecimal(peek)`
+	readerMax := int64(-1)
+	allInstrs(se, func(in ssa.Instruction) {
+		if b, ok := in.(*ssa.BinOp); ok && b.Op == token.LSS {
+			if ph, ok := b.X.(*ssa.Phi); ok && isInduction(ph) {
+				if k, ok := constInt(b.Y); ok {
+					readerMax = 1 + k
+				}
+			}
+		}
+	})
+	if readerMax < 0 {
+		c.und(R, "scanEscape:decimal-width", p.pos(se.Pos()), "cannot derive how many digits the reader takes for a decimal escape")
+		return
+	}
+	n := 0
+	for in, seq := range constAppendSeqs(q) {
+		if len(seq) < 2 || seq[0] != '\\' || seq[1] < '0' || seq[1] > '9' {
+			continue
+		}
+		n++
+		digits := int64(0)
+		for _, b := range seq[1:] {
+			if b >= '0' && b <= '9' {
+				digits++
+			}
+		}
+		c.check(digits == readerMax && int64(len(seq)) == 1+readerMax, R, fmt.Sprintf("quoteLuaString:decimal-escape-width#%d", n), p.ipos(in),
+			fmt.Sprintf("decimal escapes are written with %d digits, as many as the reader consumes", readerMax),
+			fmt.Sprintf("the quoter writes a decimal escape with %d digit(s) but the reader takes up to %d: when the next character of the string is a digit it is absorbed into the escape (%%q of \"\\0\" .. \"1\" reads back as one byte)", digits, readerMax))
+	}
 }
 
 // Go reference-time tokens, longest first.
